@@ -95,6 +95,45 @@ Theorem C20_dead_receiver_ignores_packets : forall r p,
   rc_alive r = false \/ rc_secret r = false -> r_on_pkt r p = r.
 Proof. exact DcStreamProofs.dead_receiver_ignores_packets. Qed.
 
+(* coverage: acknowledged, in-flight and pending-retransmission ranges cover everything sent, none
+   reaches beyond max_sent_offset, which lies within what was written; a sent fin stays in one of the sets *)
+Theorem C20_dc_coverage : forall c evs, (0 < c_idle c)%N ->
+  let s := w_s (run c evs) in
+  (forall o, o < sd_next_off s -> DcStreamProofs.cov s o = true) /\
+  Forall (fun sg => DcStreamProofs.seg_end sg <= sd_next_off s)
+         (sd_acked s ++ map snd (sd_inflight s) ++ sd_retx s) /\
+  sd_next_off s <= length (sd_data s) /\
+  (sd_fin_sent s = true ->
+   DcStreamProofs.has_fin (sd_acked s) || DcStreamProofs.has_fin (map snd (sd_inflight s))
+   || DcStreamProofs.has_fin (sd_retx s) = true).
+Proof. exact DcStreamProofs.dc_coverage. Qed.
+
+(* liveness, measure: after shutdown, for EVERY schedule (any losses, duplicates, delays, interleaving)
+   the receiver's deficit (bytes it lacks + 1 while the final size is unknown) plus the number of helpful
+   deliveries so far never exceeds the initial deficit *)
+Theorem C20_dc_measure : forall c evs0 evs, (0 < c_idle c)%N ->
+  let w := run c evs0 in
+  sd_closed (w_s w) = true ->
+  DcStreamProofs.missing (run_from w evs) + DcStreamProofs.count_useful w evs <= DcStreamProofs.missing w.
+Proof. exact DcStreamProofs.dc_measure. Qed.
+
+(* liveness, eventual delivery.  Hypotheses, all explicit: the writer has shut down; finite loss /
+   network fairness: at least [missing w] helpful deliveries occur in the schedule (a delivery is helpful
+   when an accepting receiver gets an unseen packet carrying a byte or the final size it lacks) --
+   the network may lose, duplicate and delay everything else; fairness of time: the receiver is alive and
+   error-free at the end; the application reads enough.  Then the reader holds exactly the written
+   stream and has seen EOF. *)
+Theorem C20_dc_eventual_delivery : forall c evs0 evs k, (0 < c_idle c)%N ->
+  let w := run c evs0 in
+  let w1 := run_from w evs in
+  sd_closed (w_s w) = true ->
+  DcStreamProofs.missing w <= DcStreamProofs.count_useful w evs ->
+  rc_alive (w_r w1) = true -> tm_live (rc_tm (w_r w1)) = true ->
+  length (written w1) - length (read w1) <= k ->
+  let w2 := step w1 (AppRead k) in
+  read w2 = written w2 /\ rc_eof (w_r w2) = true.
+Proof. exact DcStreamProofs.dc_eventual_delivery. Qed.
+
 (* the simulation monitor: what acceptance of an observed exchange means *)
 Theorem C20_dcsim_judge_sound : forall pay0 pay1 case out,
   dcsim_judge case out = true -> DcStreamProofs.sim_meaning pay0 pay1 case out.
@@ -132,5 +171,8 @@ Print Assumptions C20_p_limit_is_flow_offset.
 Print Assumptions C20_dc_fails_within_idle.
 Print Assumptions C20_dc_fails_within_idle_recv.
 Print Assumptions C20_dead_receiver_ignores_packets.
+Print Assumptions C20_dc_coverage.
+Print Assumptions C20_dc_measure.
+Print Assumptions C20_dc_eventual_delivery.
 Print Assumptions C20_dcsim_judge_sound.
 Print Assumptions C20_monitor_accepts_model.
